@@ -108,6 +108,42 @@ theorem open_for_write_unsafe (fs : FS α) (pre post : List (Effect α)) (p : Pa
   apply crashStates_tail_subset
   exact start_mem_crashStates _ _
 
+/-! ### leftover temp files -/
+
+/-- the temp-file protocol of build.ninja with a truncating first open: whatever a killed run left in
+    `build.ninja~` (or anywhere else), the file renamed into place holds exactly preamble ++ body -/
+theorem stale_temp_harmless {β : Type} (fs : CFS β) (tmp dst : Path) (pre body : List β) (h : tmp ≠ dst) :
+    (crun fs (ninjaTempTruncating tmp dst pre body)) dst = some (pre ++ body) ∧
+    (crun fs (ninjaTempTruncating tmp dst pre body)) tmp = none := by
+  have h' : dst ≠ tmp := fun e => h e.symm
+  simp [ninjaTempTruncating, crun, cstep, CFS.set, h, h']
+
+/-- with append-mode opens only, a leftover `build.ninja~` survives: the file renamed into place holds the stale
+    manifest followed by the new one … -/
+theorem appending_temp_keeps_stale {β : Type} (fs : CFS β) (tmp dst : Path) (stale pre body : List β)
+    (h : tmp ≠ dst) (hs : fs tmp = some stale) :
+    (crun fs (ninjaTempAppending tmp dst pre body)) dst = some (stale ++ pre ++ body) := by
+  have h' : dst ≠ tmp := fun e => h e.symm
+  simp [ninjaTempAppending, crun, cstep, CFS.set, h, h', hs]
+
+/-- … which is right only in a directory where no killed run left the temp file -/
+theorem appending_temp_clean_only {β : Type} (fs : CFS β) (tmp dst : Path) (pre body : List β)
+    (h : tmp ≠ dst) (hs : fs tmp = none) :
+    (crun fs (ninjaTempAppending tmp dst pre body)) dst = some (pre ++ body) := by
+  have h' : dst ≠ tmp := fun e => h e.symm
+  simp [ninjaTempAppending, crun, cstep, CFS.set, h, h', hs]
+
+theorem appending_temp_counterexample :
+    ∃ fs : CFS Nat, (crun fs (ninjaTempAppending pBuildNinjaTmp pBuildNinja [1] [2])) pBuildNinja ≠ some [1, 2] := by
+  refine ⟨fun p => if p = pBuildNinjaTmp then some [1, 2] else none, ?_⟩
+  decide
+
+/-- the static form, all traces: renaming only fresh files into place under the worst assumption about leftovers
+    implies it for every directory a killed run can have left -/
+theorem replaces_fresh_mono (t : List (Effect α)) (st st' : Stale)
+    (hle : ∀ p, st' p = true → st p = true) (h : replacesFresh st t = true) : replacesFresh st' t = true :=
+  replacesFresh_mono t st st' hle h
+
 /-! ### the static discipline, all traces -/
 
 /-- a trace that never opens, writes or copies onto `p` and only replaces it by complete files leaves `p`
@@ -316,6 +352,19 @@ theorem recorded_coredata_always_present :
     intro h; simp [h, FileSt.isAbsent] at hk
   exact alwaysPresentCheck_sound pCoredata sc.fs0 sc.trace hk.1 h0
 
+/-- every file a recorded command renames into place was opened truncating (or copied whole) by that very
+    command, assuming that *every* path absent from the clean pre-command directory may hold leftovers … -/
+theorem recorded_temps_truncated :
+    ∀ sc ∈ CrashTraces.all, replacesFresh sc.stale0 sc.trace = true := by
+  decide +kernel
+
+/-- … hence for every directory a killed run can have left -/
+theorem recorded_temps_ignore_leftovers :
+    ∀ sc ∈ CrashTraces.all, ∀ st : Stale, (∀ p, st p = true → sc.stale0 p = true) →
+      replacesFresh st sc.trace = true := by
+  intro sc hsc st hle
+  exact replacesFresh_mono sc.trace sc.stale0 st hle (recorded_temps_truncated sc hsc)
+
 /-! ### non-vacuity -/
 
 example : CrashTraces.all.length = 41 := by decide
@@ -331,6 +380,8 @@ example : alwaysPresentCheck pCoredata (coredataSave Gen.new) = true := by decid
 example : alwaysPresentCheck pCoredata (rotateByRename .new) = false := by decide
 example : alwaysPresentCheck pCoredata (restorePrev : List (Effect Gen)) = true := by decide
 example : alwaysPresentCheck pCoredata restorePrevUnlinkFirst = false := by decide
+example : replacesFresh (fun _ => true) ([.openW 6, .write 6, .close 6 Gen.new, .openA 6, .write 6, .close 6 Gen.new, .replace 6 5] : List (Effect Gen)) = true := by decide
+example : replacesFresh (fun _ => true) ([.openA 6, .write 6, .close 6 Gen.new, .replace 6 5] : List (Effect Gen)) = false := by decide
 example : ∀ s ∈ crashStates configuredWithPrev (restorePrev : List (Effect Gen)), s pCoredata ≠ .absent := by decide
 example : ∃ sc ∈ CrashTraces.all, sc.coredataOnly = true ∧ sc.cmd = .configure := by decide
 
